@@ -15,8 +15,8 @@ git apply $D/patch.diff || { echo "patch does not apply"; rm -f $WT/$dest/zz_dem
 go build ./... || { echo "does not build"; }
 mut=$(go test -vet=off -count=1 ./$dest 2>&1 | tail -3); echo "MUTANT(with demo): $(echo "$mut" | tail -1)"
 rm -f $WT/$dest/zz_demo_test.go
-pk=$(git diff --name-only | grep '\.go$' | xargs -n1 dirname | sort -u | sed 's|^|./|' | tr '\n' ' ')
-ex=$(go test -vet=off -count=1 $pk 2>&1 | tail -3); echo "EXISTING TESTS ($pk): $(echo "$ex" | tail -1)"
+pk=$(git diff --name-only | grep '\.go$' | grep -v zz_verif_contracts | xargs -n1 dirname | sort -u | sed 's|^|./|' | tr '\n' ' ')
+ex=$(go test -short -vet=off -count=1 $pk 2>&1 | tail -3); echo "EXISTING TESTS ($pk): $(echo "$ex" | tail -1)"
 git checkout -q -- . ; find . -name zz_verif_contracts.go -delete
 # now the check
 cd /repo && git diff --quiet || { echo "/repo dirty"; exit 2; }
